@@ -480,6 +480,12 @@ func decProtoOne(c *decProtoCase, seq []int, r *core.Rec, wrap func(*decProtoCas
 			}
 			judged := fresh
 			fileView, parityView = "-", "-"
+			if judged && pi == nil {
+				// a completed Repair on fresh tables (successful or refused) leaves the recovery files as they were and has no
+				// business with the recovery data the object has loaded: a caller who then reloads only the data files
+				// (the recovery files did not change) is using the object as intended
+				parityView = view(vols)
+			}
 			wasOwnOnly := ownOnly
 			if fresh {
 				ownOnly = true
